@@ -6,10 +6,10 @@ import (
 	"fmt"
 	"math"
 
+	"github.com/nspcc-dev/neo-go/pkg/core/state"
 	"github.com/nspcc-dev/neo-go/pkg/neotest"
 	"github.com/nspcc-dev/neo-go/pkg/smartcontract"
 	"github.com/nspcc-dev/neo-go/pkg/smartcontract/manifest"
-	"github.com/nspcc-dev/neo-go/pkg/core/state"
 	"github.com/nspcc-dev/neo-go/pkg/util"
 	"github.com/nspcc-dev/neo-go/pkg/vm/stackitem"
 	"github.com/stretchr/testify/require"
@@ -136,6 +136,28 @@ func init() {
 		o := fundedOwner(w)
 		return plain(w.h["balance"], "transfer", atoms{"KEY": o}, o.ScriptHash(), w.sample.owner.ScriptHash(), int64(10), nil)
 	})
+	reg("balance.transfer/4/via", func(w *world, k int) *fixture {
+		w.must(w.h["balance"], w.alpha(), "mint", w.kc, int64(1000), []byte("m"))
+		fx := plain(w.h["balance"], "transfer", atoms{"KEY": w.newAcc("bystander", 10_0000_0000)}, w.kc, w.sample.owner.ScriptHash(), int64(10), nil)
+		fx.call = func(set map[string]bool) (util.Uint160, string, []any) {
+			if set["VIACALLER"] {
+				return w.kc, "transfer", []any{w.h["balance"], w.kc.BytesBE(), w.sample.owner.ScriptHash().BytesBE(), int64(10)}
+			}
+			return fx.target, fx.method, fx.args
+		}
+		return fx
+	})
+	reg("balance.transfer/4/via-victim", func(w *world, k int) *fixture {
+		o := fundedOwner(w)
+		fx := plain(w.h["balance"], "transfer", atoms{"KEY": o}, o.ScriptHash(), w.sample.owner.ScriptHash(), int64(10), nil)
+		fx.call = func(set map[string]bool) (util.Uint160, string, []any) {
+			if set["VIACALLER"] {
+				return w.kc, "transfer", []any{w.h["balance"], o.ScriptHash().BytesBE(), w.sample.owner.ScriptHash().BytesBE(), int64(10)}
+			}
+			return fx.target, fx.method, fx.args
+		}
+		return fx
+	})
 	reg("balance.transferX/4/", func(w *world, k int) *fixture {
 		o := fundedOwner(w)
 		return plain(w.h["balance"], "transferX", atoms{"KEY": o}, o.ScriptHash(), w.sample.owner.ScriptHash(), int64(10), []byte("x"))
@@ -247,15 +269,37 @@ func init() {
 		return plain(w.h["container"], "onNEP11Payment", atoms{}, w.stranger.ScriptHash(), int64(1), []byte("token"), nil)
 	})
 	// ---------------- neofs ----------------
-	reg("neofs.alphabetUpdate/2/", func(w *world, k int) *fixture {
-		// the same keys in a rotated order: the stored list changes, the multi-signature account does not
-		n := len(w.c.Privs)
-		ks := make([]any, n)
-		for i := range ks {
-			ks[i] = w.c.Privs[(i+k)%n].PublicKey().Bytes()
+	for _, mode := range []string{"", "votes"} {
+		nf := "neofs"
+		if mode != "" {
+			nf = "neofs#" + mode
 		}
-		return plain(w.h["neofs"], "alphabetUpdate", atoms{}, []byte(fmt.Sprintf("au%d", k)), ks)
-	})
+		reg("neofs.alphabetUpdate/2/"+mode, func(w *world, k int) *fixture {
+			// the same keys in a rotated order: the stored list changes, the multi-signature account does not
+			n := len(w.c.Privs)
+			ks := make([]any, n)
+			for i := range ks {
+				ks[i] = w.c.Privs[(i+k)%n].PublicKey().Bytes()
+			}
+			return plain(w.h[nf], "alphabetUpdate", atoms{}, []byte(fmt.Sprintf("au%d", k)), ks)
+		})
+		reg("neofs.cheque/4/"+mode, func(w *world, k int) *fixture {
+			u := w.newAcc("chequee", 10_0000_0000)
+			return plain(w.h[nf], "cheque", atoms{"KEY": u}, []byte(fmt.Sprintf("cheque%d", w.seq)), u.ScriptHash(), int64(1_0000), []byte("lock"))
+		})
+		reg("neofs.innerRingCandidateRemove/1/"+mode, func(w *world, k int) *fixture {
+			u := w.newAcc("candidate", 10_0000_0000)
+			w.must(w.h[nf], []neotest.Signer{u}, "innerRingCandidateAdd", chain.Pub(u))
+			return plain(w.h[nf], "innerRingCandidateRemove", atoms{"KEY": u}, chain.Pub(u))
+		})
+		reg("neofs.setConfig/3/"+mode, func(w *world, k int) *fixture {
+			return plain(w.h[nf], "setConfig", atoms{}, []byte(fmt.Sprintf("sc%d", k)), []byte("SomeKey"), []byte(fmt.Sprintf("v%d", k)))
+		})
+		reg("neofs.withdraw/2/"+mode, func(w *world, k int) *fixture {
+			u := w.newAcc("withdrawer", 10_0000_0000)
+			return plain(w.h[nf], "withdraw", atoms{"KEY": u}, u.ScriptHash(), int64(5))
+		})
+	}
 	bindFx := func(m string) func(w *world, k int) *fixture {
 		return func(w *world, k int) *fixture {
 			u := w.newAcc("binder", 10_0000_0000)
@@ -264,25 +308,9 @@ func init() {
 	}
 	reg("neofs.bind/2/", bindFx("bind"))
 	reg("neofs.unbind/2/", bindFx("unbind"))
-	reg("neofs.cheque/4/", func(w *world, k int) *fixture {
-		u := w.newAcc("chequee", 10_0000_0000)
-		return plain(w.h["neofs"], "cheque", atoms{"KEY": u}, []byte(fmt.Sprintf("cheque%d", w.seq)), u.ScriptHash(), int64(1_0000), []byte("lock"))
-	})
 	reg("neofs.innerRingCandidateAdd/1/", func(w *world, k int) *fixture {
 		u := w.newAcc("candidate", 10_0000_0000)
 		return plain(w.h["neofs"], "innerRingCandidateAdd", atoms{"KEY": u}, chain.Pub(u))
-	})
-	reg("neofs.innerRingCandidateRemove/1/", func(w *world, k int) *fixture {
-		u := w.newAcc("candidate", 10_0000_0000)
-		w.must(w.h["neofs"], []neotest.Signer{u}, "innerRingCandidateAdd", chain.Pub(u))
-		return plain(w.h["neofs"], "innerRingCandidateRemove", atoms{"KEY": u}, chain.Pub(u))
-	})
-	reg("neofs.setConfig/3/", func(w *world, k int) *fixture {
-		return plain(w.h["neofs"], "setConfig", atoms{}, []byte(fmt.Sprintf("sc%d", k)), []byte("SomeKey"), []byte(fmt.Sprintf("v%d", k)))
-	})
-	reg("neofs.withdraw/2/", func(w *world, k int) *fixture {
-		u := w.newAcc("withdrawer", 10_0000_0000)
-		return plain(w.h["neofs"], "withdraw", atoms{"KEY": u}, u.ScriptHash(), int64(5))
 	})
 	// ---------------- neofsid ----------------
 	reg("neofsid.addKey/2/", func(w *world, k int) *fixture {
@@ -506,4 +534,3 @@ func (w *world) safeEntry(c Cell) *tableEntry {
 	h := w.h[c.C]
 	return &tableEntry{setup: func(w *world, k int) *fixture { return plain(h, c.M, atoms{}, args...) }}
 }
-
